@@ -151,10 +151,10 @@ def hbin(name):
     return os.path.join(TARGET, "debug", name)
 
 
-def pipe_to_driver(harness_cmd, timeout=3000, keep=None):
+def pipe_to_driver(harness_cmd, timeout=3000, keep=None, env=None):
     """Runs `harness_cmd | specs_model`; returns (driver lines, harness rc, stderr tail).
     `keep`: optional path to which the harness transcript is also written."""
-    hp = subprocess.Popen(harness_cmd, stdout=subprocess.PIPE, stderr=subprocess.PIPE)
+    hp = subprocess.Popen(harness_cmd, stdout=subprocess.PIPE, stderr=subprocess.PIPE, env=env)
     if keep:
         tee = subprocess.Popen(["tee", keep], stdin=hp.stdout, stdout=subprocess.PIPE)
         src = tee.stdout
